@@ -207,6 +207,22 @@ func (c *Ctx) Violated() bool {
 	return c.res.ViolCount > 0
 }
 
+// Guard runs fn under a watchdog: false means fn did not return within d (the goroutine running it is abandoned).
+// For case bodies in which nothing but calls into the library can block.
+func (c *Ctx) Guard(d time.Duration, fn func()) bool {
+	done := make(chan struct{})
+	go func() {
+		defer close(done)
+		fn()
+	}()
+	select {
+	case <-done:
+		return true
+	case <-time.After(d):
+		return false
+	}
+}
+
 func (c *Ctx) Inconclusive(msg string) {
 	c.mu.Lock()
 	if len(c.res.Inconclusive) < 20 {
